@@ -101,6 +101,14 @@ MUTANTS = [
         ("rtflite/encoding/renderer.py",
          "        return page_elements\n\n    def _should_show", "        return list(page_elements)\n\n    def _should_show"),
     ]),
+    ("c15_line_level_scratch_buffer", "C15", True, [
+        # no library call between the statements: only line-level pre-emption reaches it
+        ("rtflite/row.py",
+         "        rtf = f\"{BORDER_CODES[self.style]}\\\\brdrw{self.width}\"\n",
+         "        _BORDER_PARTS.clear()\n        _BORDER_PARTS.append(BORDER_CODES[self.style])\n"
+         "        _BORDER_PARTS.append(f\"\\\\brdrw{self.width}\")\n        rtf = \"\".join(_BORDER_PARTS)\n"),
+        ("rtflite/row.py", "class Border(BaseModel):", "_BORDER_PARTS: list = []\n\n\nclass Border(BaseModel):"),
+    ]),
     ("c15_control_lock_serialises_encodes", "C15", False, [
         ("rtflite/encoding/engine.py",
          "        return self._encoder.encode(document)",
